@@ -37,7 +37,7 @@ std::vector<size_t> calculate_reduce_indices(
         size_t hole_idx = 0;
         for (size_t idx = 0; idx < num_of_modes; idx++)
         {
-            if (idx == (size_t)selected_index_holes[hole_idx] && hole_idx < selected_index_holes.size())
+            if (hole_idx < selected_index_holes.size() && idx == (size_t)selected_index_holes[hole_idx])
             {
                 hole_idx++;
                 continue;
